@@ -298,7 +298,10 @@ class DemoStorage(ConflictResolvingStorage):
         with self._lock:
             while 1:
                 oid = ZODB.utils.p64(self._next_oid)
-                if oid not in self._issued_oids:
+                # (A record stored in the transaction in progress cannot be
+                # loaded yet, but its oid is taken.)
+                if oid not in self._issued_oids and \
+                        oid not in self._stored_oids:
                     try:
                         load_current(self.changes, oid)
                     except ZODB.POSException.POSKeyError:
